@@ -1,144 +1,151 @@
-(* Stages B and C of C01_back: programs over top-level variables.  A program is a list of top-level statements -
-   declarations `x := e`, assignments `x = e`, expression statements, and conditionals
-   `if c { simple; ... } else { simple; ... }` whose branches are lists of assignments and expression statements -
-   with the scalar expressions of ScalarFrag.v (which may mention the variables declared so far).  The k-th
-   declaration declares variable k; [names] gives the variables their (distinct, non-empty) identifiers.  As for
-   the expression fragment: the code the compiler model emits and the source-level result are pure functions;
-   proofs/Var*Proofs.v show that they ARE what Compiler.compile_program, Sem.run and VM.run compute. *)
+(* Stages B, C and D of C01_back: programs over top-level variables.  A program is a list of top-level statements -
+   declarations `x := e`, assignments `x = e`, expression statements, conditionals `if c { ... } else { ... }` and
+   condition loops `for c { ... }` whose blocks are again lists of assignments, expression statements, conditionals
+   and loops, nested to any depth - over the scalar expressions of ScalarFrag.v (which may mention the variables
+   declared so far).  The k-th declaration declares variable k; [names] gives the variables their (distinct,
+   non-empty) identifiers.  As for the expression fragment: the code the compiler model emits and the source-level
+   result are pure functions; proofs/Var*Proofs.v show that they ARE what Compiler.compile_program, Sem.run and
+   VM.run compute.  Loops make the source-level meaning a fuelled function: [None] = the fuel did not suffice. *)
 From Coq Require Import List ZArith NArith Bool Arith.
 Require Import RV.model.Syntax RV.model.Compiler RV.model.ScalarFrag.
 Import ListNotations.
 Local Open Scope nat_scope.
 
-(* what a branch of a conditional may contain *)
-Inductive simple := MSet (i : nat) (e : sexp) | MExpr (e : sexp).
-Inductive stmt := SDecl (e : sexp) | SSet (i : nat) (e : sexp) | SExpr (e : sexp)
-                | SIf (c : sexp) (t e : list simple).
-
-Definition embed_simple (names : list (list N)) (m : simple) : node :=
-  match m with
-  | MSet i e => NAssign (nth i names []) [61%N] (embed names e)
-  | MExpr e => embed names e
-  end.
+Inductive stmt :=
+| SDecl (e : sexp)                       (* x_k := e   (top level only) *)
+| SSet (i : nat) (e : sexp)              (* x_i = e *)
+| SExpr (e : sexp)
+| SIf (c : sexp) (t e : list stmt)       (* if c { t } else { e } *)
+| SWhile (c : sexp) (b : list stmt).     (* for c { b } *)
 
 (* k = number of variables declared so far *)
-Fixpoint embed_stmts (names : list (list N)) (k : nat) (l : list stmt) : list node :=
-  match l with
-  | [] => []
-  | SDecl e :: r => NVar (nth k names []) (embed names e) :: embed_stmts names (S k) r
-  | SSet i e :: r => NAssign (nth i names []) [61%N] (embed names e) :: embed_stmts names k r
-  | SExpr e :: r => embed names e :: embed_stmts names k r
-  | SIf c t e :: r => NIf (embed names c) (map (embed_simple names) t) (Some (map (embed_simple names) e))
-                      :: embed_stmts names k r
-  end.
+Definition next_k (k : nat) (s : stmt) : nat := match s with SDecl _ => S k | _ => k end.
 
-Definition wf_simple (k : nat) (m : simple) : bool :=
-  match m with MSet i e => Nat.ltb i k && wf k e | MExpr e => wf k e end.
-
-Fixpoint wf_stmts (k : nat) (l : list stmt) : bool :=
-  match l with
-  | [] => true
-  | SDecl e :: r => wf k e && wf_stmts (S k) r
-  | SSet i e :: r => Nat.ltb i k && wf k e && wf_stmts k r
-  | SExpr e :: r => wf k e && wf_stmts k r
-  | SIf c t e :: r => wf k c && forallb (wf_simple k) t && forallb (wf_simple k) e && wf_stmts k r
+(* ---------------------------------------------------------------- the AST of a program *)
+Definition embed_list (es : nat -> stmt -> node) : nat -> list stmt -> list node :=
+  fix el (k : nat) (l : list stmt) : list node :=
+    match l with [] => [] | s :: r => es k s :: el (next_k k s) r end.
+Fixpoint embed_stmt (names : list (list N)) (k : nat) (s : stmt) {struct s} : node :=
+  match s with
+  | SDecl e => NVar (nth k names []) (embed names e)
+  | SSet i e => NAssign (nth i names []) [61%N] (embed names e)
+  | SExpr e => embed names e
+  | SIf c t e => NIf (embed names c) (embed_list (embed_stmt names) k t) (Some (embed_list (embed_stmt names) k e))
+  | SWhile c b => NFor (Some (embed names c)) None None (embed_list (embed_stmt names) k b)
   end.
+Definition embed_stmts (names : list (list N)) : nat -> list stmt -> list node := embed_list (embed_stmt names).
+
+(* ---------------------------------------------------------------- well-formedness *)
+Definition wf_list (w : nat -> stmt -> bool) : nat -> list stmt -> bool :=
+  fix wl (k : nat) (l : list stmt) : bool :=
+    match l with [] => true | s :: r => w k s && wl (next_k k s) r end.
+(* variables are used after their declaration; declarations only at the top level *)
+Fixpoint wf_stmt (top : bool) (k : nat) (s : stmt) {struct s} : bool :=
+  match s with
+  | SDecl e => top && wf k e
+  | SSet i e => Nat.ltb i k && wf k e
+  | SExpr e => wf k e
+  | SIf c t e => wf k c && wf_list (wf_stmt false) k t && wf_list (wf_stmt false) k e
+  | SWhile c b => wf k c && wf_list (wf_stmt false) k b
+  end.
+Definition wf_stmts (top : bool) : nat -> list stmt -> bool := wf_list (wf_stmt top).
 
 Fixpoint ndecls (l : list stmt) : nat :=
   match l with [] => 0 | SDecl _ :: r => S (ndecls r) | _ :: r => ndecls r end.
 
 (* fuel the compiler and the reference semantics need, operand-stack slots the VM needs *)
-Definition simple_exp (m : simple) : sexp := match m with MSet _ e | MExpr e => e end.
-Definition simples_height (l : list simple) : nat := fold_right (fun m a => Nat.max (height (simple_exp m)) a) 0 l.
-Definition simples_need (l : list simple) : nat := fold_right (fun m a => Nat.max (need (simple_exp m)) a) 1 l.
-Definition stmt_height (s : stmt) : nat :=
+Definition max_list (h : stmt -> nat) (d : nat) (l : list stmt) : nat := fold_right (fun s a => Nat.max (h s) a) d l.
+Fixpoint sheight (s : stmt) : nat :=
   match s with
   | SDecl e | SSet _ e | SExpr e => height e
-  | SIf c t e => S (Nat.max (height c) (S (Nat.max (simples_height t) (simples_height e))))
+  | SIf c t e => S (Nat.max (height c) (Nat.max (max_list sheight 0 t) (max_list sheight 0 e)))
+  | SWhile c b => S (Nat.max (height c) (max_list sheight 0 b))
   end.
-Definition stmt_need (s : stmt) : nat :=
+Fixpoint sneed (s : stmt) : nat :=
   match s with
   | SDecl e | SSet _ e | SExpr e => need e
-  | SIf c t e => Nat.max (need c) (Nat.max (simples_need t) (simples_need e))
+  | SIf c t e => Nat.max (need c) (Nat.max (max_list sneed 1 t) (max_list sneed 1 e))
+  | SWhile c b => Nat.max (need c) (max_list sneed 1 b)
   end.
-Definition max_height (l : list stmt) : nat := fold_right (fun s m => Nat.max (stmt_height s) m) 0 l.
-Definition max_need (l : list stmt) : nat := fold_right (fun s m => Nat.max (stmt_need s) m) 0 l.
+Definition max_height (l : list stmt) : nat := max_list sheight 0 l.
+Definition max_need (l : list stmt) : nat := max_list sneed 1 l.
 
 Fixpoint set_nth (i : nat) (v : sval) (l : list sval) : list sval :=
   match l, i with [], _ => [] | _ :: r, O => v :: r | x :: r, S j => x :: set_nth j v r end.
 
 (* ---------------------------------------------------------------- source-level meaning *)
-(* a statement: the new values of the variables and the statement's value, or the class of the error *)
-Definition run_simple (rho : list sval) (m : simple) : (list sval * sval) + serr :=
-  match m with
-  | MSet i e => match sev rho e with inl v => inl (set_nth i v rho, VNil) | inr x => inr x end
-  | MExpr e => match sev rho e with inl v => inl (rho, v) | inr x => inr x end
+(* a statement: the new values of the variables and the statement's value, or the class of the error;
+   None: not enough fuel (each nesting level and each loop iteration costs one) *)
+Definition result : Type := option ((list sval * sval) + serr).
+(* a statement list: the value of its last statement if that is an expression, else nil *)
+Definition run_list (step : list sval -> stmt -> result) : list sval -> list stmt -> sval -> result :=
+  fix rl (rho : list sval) (l : list stmt) (last : sval) : result :=
+    match l with
+    | [] => Some (inl (rho, last))
+    | s :: r => match step rho s with Some (inl (rho', v)) => rl rho' r v | other => other end
+    end.
+Fixpoint run_stmt (fuel : nat) (rho : list sval) (s : stmt) {struct fuel} : result :=
+  match fuel with
+  | O => None
+  | S f =>
+    match s with
+    | SDecl e => match sev rho e with inl v => Some (inl (rho ++ [v], VNil)) | inr x => Some (inr x) end
+    | SSet i e => match sev rho e with inl v => Some (inl (set_nth i v rho, VNil)) | inr x => Some (inr x) end
+    | SExpr e => match sev rho e with inl v => Some (inl (rho, v)) | inr x => Some (inr x) end
+    | SIf c t e => match sev rho c with
+                   | inl vc => run_list (run_stmt f) rho (if struthy vc then t else e) VNil
+                   | inr x => Some (inr x)
+                   end
+    | SWhile c b => match sev rho c with
+                    | inl vc =>
+                        if struthy vc then
+                          match run_list (run_stmt f) rho b VNil with
+                          | Some (inl (rho', _)) => run_stmt f rho' (SWhile c b)
+                          | other => other
+                          end
+                        else Some (inl (rho, VNil))
+                    | inr x => Some (inr x)
+                    end
+    end
   end.
-(* a block: the value of its last statement if that is an expression, else nil *)
-Fixpoint run_simples (rho : list sval) (l : list simple) (last : sval) : (list sval * sval) + serr :=
-  match l with
-  | [] => inl (rho, last)
-  | m :: r => match run_simple rho m with inl (rho', v) => run_simples rho' r v | inr x => inr x end
-  end.
-Definition run_stmt (rho : list sval) (s : stmt) : (list sval * sval) + serr :=
-  match s with
-  | SDecl e => match sev rho e with inl v => inl (rho ++ [v], VNil) | inr x => inr x end
-  | SSet i e => match sev rho e with inl v => inl (set_nth i v rho, VNil) | inr x => inr x end
-  | SExpr e => match sev rho e with inl v => inl (rho, v) | inr x => inr x end
-  | SIf c t e => match sev rho c with
-                 | inl vc => run_simples rho (if struthy vc then t else e) VNil
-                 | inr x => inr x
-                 end
-  end.
-(* a program: the value of the last statement if it is an expression, else nil; or the class of the first error *)
-Fixpoint run_stmts (rho : list sval) (l : list stmt) (last : sval) : sval + serr :=
-  match l with
-  | [] => inl last
-  | s :: r => match run_stmt rho s with inl (rho', v) => run_stmts rho' r v | inr x => inr x end
-  end.
+Definition run_stmts (fuel : nat) : list sval -> list stmt -> sval -> result := run_list (run_stmt fuel).
 
 (* ---------------------------------------------------------------- emitted code *)
-Definition simple_code (base : nat) (m : simple) : list N * list konst :=
-  match m with
-  | MSet i e => let '(c, ks) := cexp base e in (c ++ [opStoreGlobal; N.of_nat i], ks)
-  | MExpr e => cexp base e
-  end.
-Definition is_expr_simple (m : simple) : bool := match m with MExpr _ => true | _ => false end.
+Definition is_expr_stmt (s : stmt) : bool := match s with SExpr _ | SIf _ _ _ => true | _ => false end.
 (* a non-empty statement list as compileStatements lays it out: an expression statement is followed by PopTop unless
    it is the last one; a last statement that is not an expression is followed by Nil *)
-Fixpoint simples_code (base : nat) (l : list simple) : list N * list konst :=
-  match l with
-  | [] => ([], [])
-  | [m] => let '(c, ks) := simple_code base m in (c ++ (if is_expr_simple m then [] else [opNil]), ks)
-  | m :: r =>
-      let '(c, ks) := simple_code base m in
-      let '(cr, kr) := simples_code (base + length ks) r in
-      (c ++ (if is_expr_simple m then [opPopTop] else []) ++ cr, ks ++ kr)
-  end.
+Definition layout (sc : nat -> nat -> stmt -> list N * list konst) : nat -> nat -> list stmt -> list N * list konst :=
+  fix lc (k base : nat) (l : list stmt) : list N * list konst :=
+    match l with
+    | [] => ([], [])
+    | s :: r =>
+        let '(c, ks) := sc k base s in
+        match r with
+        | [] => (c ++ (if is_expr_stmt s then [] else [opNil]), ks)
+        | _ :: _ => let '(cr, kr) := lc (next_k k s) (base + length ks) r in
+                    (c ++ (if is_expr_stmt s then [opPopTop] else []) ++ cr, ks ++ kr)
+        end
+    end.
 (* a block: an empty one is Nil *)
-Definition block_code (base : nat) (l : list simple) : list N * list konst :=
-  match l with [] => ([opNil], []) | _ => simples_code base l end.
+Definition block_layout (sc : nat -> nat -> stmt -> list N * list konst) (k base : nat) (l : list stmt) : list N * list konst :=
+  match l with [] => ([opNil], []) | _ :: _ => layout sc k base l end.
 
 (* the code of one statement (without what separates it from the next), [k] variables declared, [base] constants *)
-Definition stmt_code (k base : nat) (s : stmt) : list N * list konst :=
+Fixpoint stmt_code (k base : nat) (s : stmt) {struct s} : list N * list konst :=
   match s with
   | SDecl e => let '(c, ks) := cexp base e in (c ++ [opStoreGlobal; N.of_nat k], ks)
   | SSet i e => let '(c, ks) := cexp base e in (c ++ [opStoreGlobal; N.of_nat i], ks)
   | SExpr e => cexp base e
   | SIf c t e =>
       let '(cc, kc) := cexp base c in
-      let '(ct, kt) := block_code (base + length kc) t in
-      let '(ce, ke) := block_code (base + length kc + length kt) e in
+      let '(ct, kt) := block_layout stmt_code k (base + length kc) t in
+      let '(ce, ke) := block_layout stmt_code k (base + length kc + length kt) e in
       (cc ++ [opPopJumpForwardIfFalse; (nlenN ct + 4)%N] ++ ct ++ [opJumpForward; (nlenN ce + 2)%N] ++ ce, kc ++ kt ++ ke)
+  | SWhile c b =>
+      let '(cc, kc) := cexp base c in
+      let '(cb, kb) := block_layout stmt_code k (base + length kc) b in
+      (cc ++ [opPopJumpForwardIfFalse; (nlenN cb + 6)%N] ++ cb ++
+       [opPopTop; opJumpBackward; (nlenN cc + 2 + nlenN cb + 1)%N; opNop], kc ++ kb)
   end.
-Definition is_expr_stmt (s : stmt) : bool := match s with SExpr _ | SIf _ _ _ => true | _ => false end.
-
-Fixpoint pcode (k base : nat) (l : list stmt) : list N * list konst :=
-  match l with
-  | [] => ([], [])
-  | [s] => let '(c, ks) := stmt_code k base s in (c ++ (if is_expr_stmt s then [] else [opNil]), ks)
-  | s :: r =>
-      let '(c, ks) := stmt_code k base s in
-      let '(cr, kr) := pcode (match s with SDecl _ => S k | _ => k end) (base + length ks) r in
-      (c ++ (if is_expr_stmt s then [opPopTop] else []) ++ cr, ks ++ kr)
-  end.
+Definition block_code : nat -> nat -> list stmt -> list N * list konst := block_layout stmt_code.
+Definition pcode : nat -> nat -> list stmt -> list N * list konst := layout stmt_code.
